@@ -1280,10 +1280,13 @@ def _parse_header(line: str) -> tuple[str, dict[str, str]]:
     decoded_params.pop(0)  # get rid of the dummy again
     pdict = {}
     for name, decoded_value in decoded_params:
-        value = email.utils.collapse_rfc2231_value(decoded_value)
-        if len(value) >= 2 and value[0] == '"' and value[-1] == '"':
-            value = value[1:-1]
-        pdict[name] = value
+        if isinstance(decoded_value, tuple):
+            # decode_params returns every value quoted and backslash-escaped.
+            # collapse_rfc2231_value undoes that for plain strings but not for
+            # the (charset, language, text) tuples of RFC 2231 extended values.
+            charset, language, text = decoded_value
+            decoded_value = (charset, language, email.utils.unquote(text))
+        pdict[name] = email.utils.collapse_rfc2231_value(decoded_value)
     return key, pdict
 
 
